@@ -4,9 +4,9 @@
 # (/tmp/lab_repo) and a copy of the harness (/tmp/lab_verif) whose go.mod points at that worktree.
 # Prints one line per check. Remove /tmp/lab_* when done (tools/lab_eval.sh clean).
 export GOFLAGS=-mod=mod GOPROXY=off GOSUMDB=off GOTOOLCHAIN=local
-if [ "$1" = "clean" ]; then git -C /repo worktree remove --force /tmp/lab_repo 2>/dev/null; rm -rf /tmp/lab_verif; exit 0; fi
+if [ "$1" = "clean" ]; then git -C /repo worktree remove --force /tmp/lab${LABNAME}_repo 2>/dev/null; rm -rf /tmp/lab${LABNAME}_verif; exit 0; fi
 NAME=$1; VS=$2; TIER=$3; shift 3
-LAB=/tmp/lab_repo; LV=/tmp/lab_verif
+LAB=/tmp/lab${LABNAME}_repo; LV=/tmp/lab${LABNAME}_verif
 [ -d $LAB ] || git -C /repo worktree add -q --detach $LAB HEAD
 git -C $LAB checkout -q --detach $(git -C /repo rev-parse HEAD) 2>/dev/null; git -C $LAB checkout -q -- . ; git -C $LAB clean -fdq
 mkdir -p $LV; rsync -a --delete --exclude evidence --exclude replays --exclude scratch --exclude bin --exclude .git /verif/ $LV/
